@@ -1,13 +1,15 @@
 //! Model stand-in for `rustc-hash`, used ONLY inside the Kani harness workspaces
-//! (wired with [patch.crates-io]).  `FxHashMap<K, V>` is a finite map kept as an
-//! unordered array of (key, value) pairs with linear lookup: the same abstract
-//! behaviour as hashbrown (a partial function from keys to values), without
-//! hashing, SIMD group probing, heap growth or `RandomState` thread-locals, none
-//! of which CBMC can decide in reasonable time.  Capacity is `MAP_CAP` entries
-//! (default 8, build-time env `VERIF_MAP_CAP`); exceeding it prunes the path
-//! (`kani::assume`) and is a stated bound of the harnesses.  Native replays run
-//! on the real crate.
-use core::mem::MaybeUninit;
+//! (wired with [patch.crates-io]).  `FxHashMap<K, V>` is a finite map kept as a
+//! fixed array of slots with a `used` flag each and linear lookup: the same
+//! abstract behaviour as hashbrown (a partial function from keys to values),
+//! without hashing, SIMD group probing, heap growth or `RandomState`
+//! thread-locals, none of which CBMC can decide in reasonable time.  Entries never
+//! move between slots (removal just clears the flag), which keeps the SAT problem
+//! free of permutation reasoning.  Capacity is `MAP_CAP` entries (default 8,
+//! build-time env `VERIF_MAP_CAP`); exceeding it prunes the path (`kani::assume`)
+//! and is a stated bound of the harnesses.  Every scan has the constant trip count
+//! MAP_CAP, so it does not multiply with loops of the code under test.  Native
+//! replays run on the real crate.
 
 const fn parse_cap(s: Option<&str>) -> usize {
     match s {
@@ -38,25 +40,23 @@ fn model_bound(ok: bool) {
 pub struct FxBuildHasher;
 
 #[derive(Clone, Debug)]
-pub struct FxHashMap<K: Copy, V: Copy> {
-    items: [MaybeUninit<(K, V)>; MAP_CAP],
+pub struct FxHashMap<K: Copy + Default, V: Copy + Default> {
+    keys: [K; MAP_CAP],
+    vals: [V; MAP_CAP],
+    used: [bool; MAP_CAP],
     len: usize,
 }
 
-impl<K: Copy, V: Copy> Default for FxHashMap<K, V> {
+impl<K: Copy + Default, V: Copy + Default> Default for FxHashMap<K, V> {
     fn default() -> Self {
-        Self { items: [MaybeUninit::uninit(); MAP_CAP], len: 0 }
+        Self { keys: [K::default(); MAP_CAP], vals: [V::default(); MAP_CAP], used: [false; MAP_CAP], len: 0 }
     }
 }
 
-impl<K: PartialEq + Copy, V: Copy> FxHashMap<K, V> {
+impl<K: PartialEq + Copy + Default, V: Copy + Default> FxHashMap<K, V> {
     pub fn with_capacity_and_hasher(_cap: usize, _h: FxBuildHasher) -> Self {
         // capacity is not observable through the map API
         Self::default()
-    }
-    #[inline]
-    fn at(&self, i: usize) -> (K, V) {
-        unsafe { self.items[i].assume_init() }
     }
     pub fn len(&self) -> usize {
         self.len
@@ -65,36 +65,50 @@ impl<K: PartialEq + Copy, V: Copy> FxHashMap<K, V> {
         self.len == 0
     }
     pub fn clear(&mut self) {
+        self.used = [false; MAP_CAP];
         self.len = 0;
     }
     fn pos(&self, k: &K) -> Option<usize> {
+        let mut found: Option<usize> = None;
         let mut i = 0;
-        while i < self.len {
-            if self.at(i).0 == *k {
-                return Some(i);
+        while i < MAP_CAP {
+            if self.used[i] && self.keys[i] == *k {
+                found = Some(i);
             }
             i += 1;
         }
-        None
+        found
     }
     pub fn insert(&mut self, k: K, v: V) -> Option<V> {
         match self.pos(&k) {
             Some(i) => {
-                let old = self.at(i).1;
-                self.items[i] = MaybeUninit::new((k, v));
+                let old = self.vals[i];
+                self.vals[i] = v;
                 Some(old)
             }
             None => {
-                model_bound(self.len < MAP_CAP);
-                self.items[self.len] = MaybeUninit::new((k, v));
-                self.len += 1;
+                let mut free: Option<usize> = None;
+                let mut i = 0;
+                while i < MAP_CAP {
+                    if !self.used[i] && free.is_none() {
+                        free = Some(i);
+                    }
+                    i += 1;
+                }
+                model_bound(free.is_some());
+                if let Some(i) = free {
+                    self.used[i] = true;
+                    self.keys[i] = k;
+                    self.vals[i] = v;
+                    self.len += 1;
+                }
                 None
             }
         }
     }
     pub fn get(&self, k: &K) -> Option<&V> {
         match self.pos(k) {
-            Some(i) => Some(unsafe { &(*self.items[i].as_ptr()).1 }),
+            Some(i) => Some(&self.vals[i]),
             None => None,
         }
     }
@@ -104,33 +118,24 @@ impl<K: PartialEq + Copy, V: Copy> FxHashMap<K, V> {
     pub fn remove(&mut self, k: &K) -> Option<V> {
         match self.pos(k) {
             Some(i) => {
-                let old = self.at(i).1;
+                self.used[i] = false;
                 self.len -= 1;
-                if i != self.len {
-                    self.items[i] = self.items[self.len];
-                }
-                Some(old)
+                Some(self.vals[i])
             }
             None => None,
         }
     }
     pub fn retain<F: FnMut(&K, &mut V) -> bool>(&mut self, mut f: F) {
         let mut i = 0;
-        while i < self.len {
-            let (k, mut v) = self.at(i);
-            if f(&k, &mut v) {
-                self.items[i] = MaybeUninit::new((k, v));
-                i += 1;
-            } else {
-                self.len -= 1;
-                if i != self.len {
-                    self.items[i] = self.items[self.len];
+        while i < MAP_CAP {
+            if self.used[i] {
+                let k = self.keys[i];
+                if !f(&k, &mut self.vals[i]) {
+                    self.used[i] = false;
+                    self.len -= 1;
                 }
             }
+            i += 1;
         }
-    }
-    /// model-only observer used by harness oracles
-    pub fn model_entry(&self, i: usize) -> Option<(K, V)> {
-        if i < self.len { Some(self.at(i)) } else { None }
     }
 }
